@@ -931,7 +931,8 @@ def ActOk (n : Nat) : Bt.Act → Prop
   | .cont _ pos _ bts => pos ≤ n ∧ BtsOk n bts
   | .back _ bts => BtsOk n bts
   | .goal pos _ => pos ≤ n
-  | _ => True
+  | .look _ _ _ _ _ _ bts => BtsOk n bts
+  | .err _ => True
 
 def LoopResOk (n : Nat) : Bt.LoopRes → Prop
   | .ok _ _ bts => BtsOk n bts
@@ -1105,8 +1106,8 @@ theorem step_ok (prog : Prog) (ip : Nat) {pos : Nat} (hpos : pos ≤ bytes.size)
           · exact nextOrBt_ok (fun p hp => backrefIcase_le hascii unicode hp hpos) _ ip st hbts
           · exact nextOrBt_ok (fun p hp => backref_le unicode (by simpa using hp) hpos) _ ip st hbts
         · exact ⟨hpos, hbts⟩
-    case lookahead => trivial
-    case lookbehind => trivial
+    case lookahead => exact hbts
+    case lookbehind => exact hbts
     case alt sec => exact ⟨hpos, hbts.push (by simp [recOk, hpos])⟩
     case enterLoop id min max greedy exit =>
       split
@@ -1209,28 +1210,28 @@ theorem run_agree_ok (prog : Prog) (limit : Nat) :
       | goal p st' => intro h; exact ⟨rfl, h⟩
       | cont ip' pos' st' bts' => intro h; exact ih _ _ _ _ _ _ _ h.1 h.2
       | back st' bts' => intro h; exact hback _ _ _ _ h
-      | look dirFwd negate sg eg k =>
-        intro _
+      | look dirFwd negate sg eg k st' bts' =>
+        intro hbts'
         simp only
         split
         · exact ⟨rfl, trivial⟩
-        · have hin := ih (ip + 1) pos dirFwd st #[.exhausted] (steps + 1)
+        · have hin := ih (ip + 1) pos dirFwd st' #[.exhausted] (steps + 1)
             (if peak < bts.size then bts.size else peak) hpos (btsOk_exhausted _)
           rw [hin.1]
-          cases Bt.run prog U limit sf (ip + 1) pos dirFwd st #[.exhausted] (steps + 1)
+          cases Bt.run prog U limit sf (ip + 1) pos dirFwd st' #[.exhausted] (steps + 1)
             (if peak < bts.size then bts.size else peak) with
           | error e => exact ⟨rfl, trivial⟩
           | outOfFuel => exact ⟨rfl, trivial⟩
           | matched e st2 s2 p2 =>
             simp only
             split
-            · exact ih _ _ _ _ _ _ _ hpos (pushSavedGroups_ok _ _ _ hbts)
-            · exact hback _ _ _ _ hbts
+            · exact ih _ _ _ _ _ _ _ hpos (pushSavedGroups_ok _ _ _ hbts')
+            · exact hback _ _ _ _ hbts'
           | failed st2 s2 p2 =>
             simp only
             split
-            · exact ih _ _ _ _ _ _ _ hpos hbts
-            · exact hback _ _ _ _ hbts
+            · exact ih _ _ _ _ _ _ _ hpos hbts'
+            · exact hback _ _ _ _ hbts'
 
 include hascii in
 theorem run_agree (prog : Prog) (limit sf ip : Nat) {pos : Nat} (hpos : pos ≤ bytes.size) (fwd : Bool)
@@ -1510,11 +1511,11 @@ theorem pk_runStates_ok (prog : Prog) (limit : Nat) :
       intro x hx
       rw [Array.mem_def, Array.toList_pop] at hx
       exact hst x (Array.mem_def.2 (List.dropLast_subset _ hx))
-    have hset : ∀ s' : Pk.State, s'.pos ≤ bytes.size → ∀ i,
-        ∀ s ∈ states.setIfInBounds i s', s.pos ≤ bytes.size := by
-      intro s' hs' i x hx
-      rcases Array.mem_or_eq_of_mem_setIfInBounds hx with hx | rfl
-      · exact hst x hx
+    have hset : ∀ s' : Pk.State, s'.pos ≤ bytes.size →
+        ∀ s ∈ states.pop.push s', s.pos ≤ bytes.size := by
+      intro s' hs' x hx
+      rcases Array.mem_push.1 hx with hx | rfl
+      · exact hpop x hx
       · exact hs'
     simp only [Pk.runStates]
     split
@@ -1534,14 +1535,14 @@ theorem pk_runStates_ok (prog : Prog) (limit : Nat) :
         | err e => intro _; trivial
         | outOfFuel => intro _; trivial
         | fail s' st' p' => intro _; exact ih _ _ _ _ hpop
-        | cont s' st' p' => intro h; exact ih _ _ _ _ (hset _ h _)
+        | cont s' st' p' => intro h; exact ih _ _ _ _ (hset _ h)
         | complete s' st' p' => intro h; exact ⟨h, rfl⟩
         | split s' new st' p' =>
           intro h
           refine ih _ _ _ _ ?_
           intro x hx
           rcases Array.mem_push.1 hx with hx | rfl
-          · exact hset _ h.1 _ x hx
+          · exact hset _ h.1 x hx
           · exact h.2
 
 end PkOk
